@@ -657,7 +657,7 @@ def runsys(system: System, T, x_traj, u_traj):
     '''
 
     #make initial states trajectories if not given
-    x_traj = toBTN(x_traj, T)
+    x_traj = toBTN(x_traj, T).clone()
     u_traj = toBTN(u_traj, T)
 
     for i in range(T-1):
